@@ -90,16 +90,21 @@ class EngineModel:
         return [n for n in cfg.nodes if n.stmt is st and n.kind not in ('join',)][:1]
 
     # -- roles ------------------------------------------------------------------------------
+    def cell(self):
+        """the binding cell, found by role (see class Cell)"""
+        if not hasattr(self, '_cell'):
+            self._cell = Cell(self)
+        return self._cell
+
     def variable_class(self):
-        """the class whose instances carry the binding cell: stores to ``_is_bound``"""
-        owners = []
+        """the classes whose methods write the binding cell (one, on a sound tree: the class that owns it)"""
+        cell = self.cell()
+        owners = [cell.cls]
         for f in self.repo.all_functions():
             for n in own_nodes(f.node):
-                if isinstance(n, ast.Attribute) and n.attr == '_is_bound' and isinstance(n.ctx, ast.Store):
-                    if f.cls is not None and f.cls not in owners:
+                if isinstance(n, ast.Attribute) and n.attr in cell.fields and isinstance(n.ctx, ast.Store):
+                    if f.cls is not None and f.cls not in owners and is_name(n.value, 'self') and cell.owns_field(f.cls, n.attr):
                         owners.append(f.cls)
-        if not owners:
-            raise AnalysisError('anchor vanished: no store to a field named _is_bound')
         return owners
 
     def builtins(self):
@@ -125,11 +130,12 @@ class EngineModel:
         if hasattr(self, '_binders'):
             return self._binders
         fam = []
+        cell = self.cell()
         for f in self.repo.all_functions():
             if f.name == '__init__':
                 continue
             for n in own_nodes(f.node):
-                if isinstance(n, ast.Attribute) and n.attr == '_is_bound' and isinstance(n.ctx, ast.Store):
+                if isinstance(n, ast.Attribute) and n.attr == cell.state_field and isinstance(n.ctx, ast.Store):
                     if f not in fam:
                         fam.append(f)
         changed = True
@@ -307,6 +313,118 @@ def branch_decisions(cfg, path):
 # dereference discipline
 
 
+CELL_FIELDS_HINT = ('_value', '_is_bound')       # replaced by the discovered names when an EngineModel is built
+
+
+class Cell:
+    """The binding cell by role: the fields of a term class that its own ``get_value`` reads and that its methods
+    other than the constructor write.  Two representations are understood:
+
+    flag      one field only ever holds True/False (bound?), the other holds the value
+    sentinel  one field holds the value, and a fixed marker (None or a module-level ``object()``) while unbound
+    """
+
+    def __init__(self, em):
+        repo = em.repo
+        cands = []
+        for c in repo.all_classes(('engine',)):
+            gv = c.methods.get('get_value')
+            if gv is None:
+                continue
+            reads = {n.attr for n in own_nodes(gv.node) if isinstance(n, ast.Attribute) and is_name(n.value, 'self') and isinstance(n.ctx, ast.Load)}
+            writes = {n.attr for m in c.methods.values() if m.name != '__init__' for n in own_nodes(m.node)
+                      if isinstance(n, ast.Attribute) and is_name(n.value, 'self') and isinstance(n.ctx, ast.Store)}
+            if reads & writes:
+                cands.append((c, tuple(sorted(reads & writes))))
+        if len(cands) != 1:
+            raise AnalysisError('anchor vanished: the binding cell (fields that get_value reads and the class writes outside its '
+                                'constructor) is found in %d classes' % len(cands))
+        self.cls, self.fields = cands[0]
+        stores = {}
+        for f in repo.all_functions(('engine',)):
+            for n in own_nodes(f.node):
+                if isinstance(n, ast.Assign):
+                    for t in n.targets:
+                        if isinstance(t, ast.Attribute) and t.attr in self.fields:
+                            stores.setdefault(t.attr, []).append((f, n.value))
+        flags = [k for k in self.fields if stores.get(k) and all(isinstance(v, ast.Constant) and isinstance(v.value, bool) for _, v in stores[k])]
+        self.flag = self.value = self.sentinel = None
+        if len(flags) == 1 and len(self.fields) == 2:
+            self.kind = 'flag'
+            self.flag = flags[0]
+            self.value = [k for k in self.fields if k != self.flag][0]
+            self.state_field = self.flag
+        elif len(self.fields) == 1 and not flags:
+            self.kind = 'sentinel'
+            self.value = self.fields[0]
+            self.state_field = self.value
+            init = self.cls.methods.get('__init__')
+            inits = [v for f, v in stores.get(self.value, []) if f is init]
+            if len(inits) != 1 or not self._marker(inits[0], repo):
+                raise AnalysisError('the binding cell %s.%s has no recognisable "unbound" marker (its constructor stores %s)' % (
+                    self.cls.name, self.value, [norm(v) for v in inits]))
+            self.sentinel = inits[0]
+        else:
+            raise AnalysisError('the binding cell of %s has an unsupported shape: fields %s' % (self.cls.name, list(self.fields)))
+        global CELL_FIELDS_HINT
+        CELL_FIELDS_HINT = tuple(self.fields)
+
+    @staticmethod
+    def _marker(v, repo):
+        if isinstance(v, ast.Constant) and v.value is None:
+            return True
+        if isinstance(v, ast.Name):
+            r = repo.module_binding(repo.module('engine'), v.id)
+            return bool(r and r[0] == 'var' and isinstance(r[2], ast.Call) and is_name(r[2].func, 'object') and not r[2].args)
+        return False
+
+    def owns_field(self, cls, attr):
+        return attr in self.fields
+
+    def is_unbound_marker(self, v):
+        if self.kind == 'flag':
+            return isinstance(v, ast.Constant) and v.value is False
+        return norm(v) == norm(self.sentinel)
+
+    def is_state_store(self, n):
+        """a CFG store node that writes the field which says whether the variable is bound"""
+        return n.kind == 'store' and isinstance(n.ast, ast.Attribute) and n.ast.attr == self.state_field
+
+    def is_bind(self, n):
+        return self.is_state_store(n) and not self.is_unbound_marker(n.info)
+
+    def is_unbind(self, n, recv=None):
+        return self.is_state_store(n) and self.is_unbound_marker(n.info) and (recv is None or norm(n.ast.value) == recv)
+
+    def unbound_label(self, test, recv):
+        """which out-edge of this test means 'recv is not bound' (None: not a test of the cell)"""
+        t = test
+        if self.kind == 'flag':
+            fld = recv + '.' + self.flag
+            if isinstance(t, ast.UnaryOp) and isinstance(t.op, ast.Not) and norm(t.operand) == fld:
+                return 'true'
+            if norm(t) == fld:
+                return 'false'
+            if isinstance(t, ast.Compare) and len(t.ops) == 1 and norm(t.left) == fld and \
+                    isinstance(t.comparators[0], ast.Constant) and isinstance(t.comparators[0].value, bool):
+                eq = isinstance(t.ops[0], (ast.Eq, ast.Is))
+                val = t.comparators[0].value
+                return 'true' if (eq and val is False) or (not eq and val is True) else 'false'
+            return None
+        fld = recv + '.' + self.value
+        if isinstance(t, ast.UnaryOp) and isinstance(t.op, ast.Not):
+            inner = self.unbound_label(t.operand, recv)
+            return None if inner is None else ('false' if inner == 'true' else 'true')
+        if isinstance(t, ast.Compare) and len(t.ops) == 1 and isinstance(t.ops[0], (ast.Is, ast.IsNot)):
+            sides = [norm(t.left), norm(t.comparators[0])]
+            if fld in sides and norm(self.sentinel) in sides:
+                return 'true' if isinstance(t.ops[0], ast.Is) else 'false'
+        return None
+
+    def mentions_state(self, e):
+        return any(isinstance(x, ast.Attribute) and x.attr == self.state_field for x in ast.walk(e))
+
+
 def inspections(f):
     """(name node, kind) for every place where the class or the fields of a term held in a plain
     name are looked at: isinstance(V, <term class>), V._name, V._args, V.name()"""
@@ -317,7 +435,7 @@ def inspections(f):
             if any(c in TERM_CLASS_NAMES for c in classes):
                 out.append((n.args[0], 'isinstance(%s, %s)' % (n.args[0].id, norm(n.args[1])), n))
         elif isinstance(n, ast.Attribute) and isinstance(n.value, ast.Name) and isinstance(n.ctx, ast.Load) \
-                and n.attr in ('_name', '_args', 'name', '_value', '_is_bound'):
+                and n.attr in ('_name', '_args', 'name') + CELL_FIELDS_HINT:
             if n.value.id == 'self':
                 continue
             if n.attr == 'name' and not (isinstance(getattr(n, '_parent', None), ast.Call) and n._parent.func is n):
